@@ -154,6 +154,48 @@ pub fn register(r: &mut Registry) {
         }
         f
     });
+    r.scenario("big_dbscan", "linfa-clustering", Kind::Claim, false, |p| {
+        // several clusters spread over the whole row range, bridges between them
+        let n = 4400 + (p.seed % 300) as usize;
+        let mut rr: Prng = p.rng(0xDB5);
+        let x = Array2::from_shape_fn((n, 2), |(i, j)| {
+            let c = (i * 7 / n) as f64;
+            if j == 0 {
+                c * 3.0 + 0.35 * rr.normal()
+            } else {
+                (c as usize % 2) as f64 * 2.5 + 0.35 * rr.normal()
+            }
+        });
+        let mut f = Fingerprint::new();
+        use linfa::traits::Transformer;
+        match linfa_clustering::Dbscan::params(6).tolerance(0.22).check() {
+            Ok(prm) => {
+                let labels = prm.transform(&x);
+                f.seq("labels", labels.iter().map(|l| l.map(|v| v as u64 + 1).unwrap_or(0)));
+            }
+            Err(e) => f.err("params", &e),
+        }
+        f
+    });
+    r.scenario("big_scaler_standard", "linfa-preprocessing", Kind::Claim, false, |p| {
+        let n = 33000 + (p.seed % 500) as usize;
+        let mut rr: Prng = p.rng(0x5CA);
+        let x = Array2::from_shape_fn((n, 3), |(i, j)| rr.normal() * (1.0 + j as f64) + 1e3 * (j as f64) + (i % 5) as f64 * 0.01);
+        let mut f = Fingerprint::new();
+        for (name, prm) in [("standard", linfa_preprocessing::linear_scaling::LinearScaler::standard()), ("minmax", linfa_preprocessing::linear_scaling::LinearScaler::min_max()), ("maxabs", linfa_preprocessing::linear_scaling::LinearScaler::max_abs())] {
+            match prm.fit(&Dataset::from(x.clone())) {
+                Ok(m) => {
+                    f.arr(&format!("{name}_offsets"), m.offsets());
+                    f.arr(&format!("{name}_scales"), m.scales());
+                    use linfa::traits::Transformer;
+                    let t = m.transform(x.slice(ndarray::s![0..50;3, ..]).to_owned());
+                    f.arr(&format!("{name}_transform"), &t);
+                }
+                Err(e) => f.err(name, &e),
+            }
+        }
+        f
+    });
     r.scenario("big_svm_linear", "linfa-svm", Kind::Claim, false, |p| {
         let (x, _, yb, _) = xy(p, 600 + (p.seed % 50) as usize, 3);
         let mut f = Fingerprint::new();
